@@ -32,4 +32,31 @@ CHECKS = {
         "design_ref": "DESIGN.md §5 C02",
         "assumptions": ["multipliers <= 1 and periods/steps >= 1s (the property's own domain)"],
     },
+    "C03": {
+        "title": "Distributor books always match the coins it holds",
+        "level": "exploration",
+        "technique": "property-based testing (rapid): generated valid sub-distributor graphs x multi-denomination inflow histories; invariant oracle (books identity, registered invariants, coin conservation) after every block",
+        "tests": [T("TestC03", 1500, 6000, qshards=2)],
+        "rule": "cases = sub-distributor configuration built to satisfy validation (1-4 drawn sub-distributors + repair sink; sources/destinations from MAIN, 12 module accounts, funded/new/blocked/vesting-locked base accounts, internal ids including ids equal to module names and addresses; 1-3 sources in any order; 0-3 shares and burn share from a boundary pool, sum < 1) "
+                "x 2-8 blocks x 0-3 injections per block into MAIN and swept accounts (uc4e and uatom, amounts from the boundary mixture up to 10^30). "
+                "Non-trivial = (>= 2 sub-distributors or a multi-source sub-distributor) and a fractional leftover was recorded in some block. Distinct = SHA-256 of (configuration, inflows).",
+        "min_nontrivial_fraction": 0.25,
+        "min_class_fraction": {"multi_source": 0.2, "main_not_first": 0.1, "id_collision": 0.05, "two_denoms": 0.1, "subs_ge3": 0.1, "burn_share": 0.1},
+        "level_text": "Generated configurations and inflow histories drive the real distributor BeginBlocker on the real bank; after every block: every recorded leftover >= 0, leftovers sum to whole coins per denomination and equal the main account balance, both registered invariants hold, and coins are conserved over all configured accounts (balances + burned == initial + injected). Exploration fits: the defect classes (source ordering, aliasing, partial bank writes) are reachable only by generated graphs no example test builds.",
+        "level_note": "Trusted: x/bank balances and supply. Module-level run (distributor BeginBlocker called directly so balances are seen before x/distribution runs). Bounds: <= 5 sub-distributors, <= 8 blocks, 2 denominations, amounts <= 10^30.",
+        "design_ref": "DESIGN.md §5 C03",
+    },
+    "C04": {
+        "title": "Every destination receives exactly its configured share",
+        "level": "exploration",
+        "technique": "property-based testing (rapid): differential against an exact-rational reference model of the documented flow keyed by (type,id), plus two metamorphic twins (source-order permutation, collision renaming)",
+        "tests": [T("TestC04", 1200, 5000, qshards=2)],
+        "rule": "cases = as C03 (without main-account aliases, which validation rejects), 1-7 blocks. Oracle: per real account, balance + recorded leftover equals the big.Rat model within 10^-6 and the balance within 1 base unit per key; internal accounts end each block empty; burn likewise; twins must give identical final balances. "
+                "Non-trivial = a fractional leftover occurred, or the configuration has a MAIN/internal destination or an identifier collision. Distinct = SHA-256 of (configuration, inflows).",
+        "min_nontrivial_fraction": 0.5,
+        "min_class_fraction": {"share_to_main": 0.03, "id_collision": 0.05, "twin_source_permutation": 0.2, "twin_collision_rename": 0.05, "internal_dest": 0.2},
+        "level_text": "The real distributor runs next to an independent reference model (exact rationals, accounts keyed by type and id, no repo code); after every block each destination's balance + leftover must equal the model within 10^-6 (18-digit truncation over <= 10^4 products) and balances within one base unit; source-order-permuted and collision-renamed twins must end with identical balances. Exploration with a model oracle is the strongest feasible level for a routing property over an unbounded configuration space.",
+        "level_note": "Trusted: the reference model harness/props/model_distrib.go. Floor decisions that are ambiguous at the 10^-9 level follow the implementation (see payAmount) so that truncation noise is not amplified through cycles. Same bounds as C03.",
+        "design_ref": "DESIGN.md §5 C04",
+    },
 }
